@@ -503,6 +503,9 @@ def _rand_list(rnd: random.Random, names: List[str], p_unset: float, p_empty: fl
 def _rand_lookup(rnd: random.Random, target: List[str]) -> Tuple[bool, List[str]]:
     """A spelling that ends in a file name (never resolves to a directory of the sandbox)."""
     x = rnd.random()
+    if x < 0.08:
+        # the request path is normalised by the join: a trailing "/", "/." or "//" still names the file
+        return False, target + rnd.choice([[""], ["."], ["", ""], [".", ""]])
     if x < 0.35:
         return False, target
     if x < 0.45:
